@@ -705,7 +705,9 @@ class Effects:
                 cell = OPT_STORES.get((t[1], attr))
                 if cell is None:
                     cell = "config" if t[1] == "OConfig" else f"{t[1]}.{attr}"
-                self._emit(out, fn, "RAW", cell, op, obj, node, value)
+                # a plain assignment installs a new objective object; += and set_linear_coefficients edit the one in place
+                op2 = "replace" if (t[1], attr) == ("OModel", "objective") and isinstance(node, ast.Assign) else op
+                self._emit(out, fn, "RAW", cell, op2, obj, node, value)
                 return
         if ts and all(t == LOCAL or t[0] == "prim" for t in ts):
             return
